@@ -404,6 +404,22 @@ pub fn main(modules: &'static [&'static Module]) -> ! {
     }
 }
 
+/// run the history on a fresh OS thread (fresh thread-locals, fresh migration helper)
+pub fn hermetic(m: &'static Module, hist: &[Event], opts: &ExecOpts) -> crate::exec::RunResult {
+    let (run, module) = CUR.with(|c| c.get());
+    std::thread::scope(|s| {
+        std::thread::Builder::new()
+            .stack_size(4 << 20)
+            .spawn_scoped(s, move || {
+                set_cur(run, module, hist);
+                run_history(m, hist, opts)
+            })
+            .expect("spawn hermetic thread")
+            .join()
+            .expect("hermetic thread")
+    })
+}
+
 fn gen_run(el: &[&'static Module], prop: Prop, seed: u64, idx: u64) -> (&'static Module, Vec<Event>) {
     let t = tag(&format!("itersim:{}", prop.id()));
     let mut rng = Rng::stream(seed, t, idx);
@@ -426,6 +442,7 @@ fn run_cmd(modules: &'static [&'static Module], args: &[String]) -> ! {
     let max_viol: usize = arg(args, "--max-violations").and_then(|s| s.parse().ok()).unwrap_or(6);
     let pair_from: u64 = arg(args, "--pair-from").and_then(|s| s.parse().ok()).unwrap_or(0);
     let pair_to: u64 = arg(args, "--pair-to").and_then(|s| s.parse().ok()).unwrap_or(u64::MAX);
+    let hermetic_every: u64 = arg(args, "--hermetic-every").and_then(|s| s.parse().ok()).unwrap_or(32);
     let trace = arg(args, "--trace").map(|s| s == "1").unwrap_or(false);
     let hang_s: u64 = arg(args, "--hang-s").and_then(|s| s.parse().ok()).unwrap_or(60);
     validate(modules);
@@ -540,7 +557,15 @@ fn run_cmd(modules: &'static [&'static Module], args: &[String]) -> ! {
                 }
                 cur_start[w].store(t0.elapsed().as_millis() as u64, Ordering::SeqCst);
                 cur_run[w].store(idx, Ordering::SeqCst);
-                let rr = run_history(m, &hist, &opts);
+                // Every 32nd run (by default) is hermetic: it executes on a freshly spawned home thread (whose
+                // migration helper is therefore fresh too), so that thread-local state inside the
+                // generated code starts pristine, exactly as it does when a replay file is executed
+                // by a new process. (All runs hermetic would cost a thread spawn per run.)
+                let rr = if hermetic_every > 0 && idx % hermetic_every == 0 {
+                    hermetic(m, &hist, &opts)
+                } else {
+                    run_history(m, &hist, &opts)
+                };
                 cur_run[w].store(u64::MAX, Ordering::SeqCst);
                 let mi = el.iter().position(|x| std::ptr::eq(*x, m)).unwrap();
                 acc.add_run(idx, mi, m, &hist, &rr.stats, rr.stats.obs_digest);
@@ -635,6 +660,7 @@ fn run_cmd(modules: &'static [&'static Module], args: &[String]) -> ! {
             ]),
         ),
         ("consumed_whole", J::Int(total.consumed_whole as i128)),
+        ("hermetic_runs", J::Int(if hermetic_every > 0 { (end + hermetic_every - 1) / hermetic_every - (from + hermetic_every - 1) / hermetic_every } else { 0 } as i128)),
         ("creates", J::obj(vec![
             ("iter", J::Int(total.creates[0] as i128)),
             ("range", J::Int(total.creates[1] as i128)),
